@@ -279,7 +279,7 @@ static int count_tasks(pid_t pid)
 struct rq_snap {
 	int n;
 	int tid[160];
-	uint64_t wait[160];
+	uint64_t wait[160], run[160];
 	uint64_t t_ns;
 };
 
@@ -309,12 +309,15 @@ static void rq_snapshot(pid_t pid, struct rq_snap *s)
 			continue;
 		s->tid[s->n] = tid;
 		s->wait[s->n] = wait;
+		s->run[s->n] = run;
 		s->n++;
 	}
 	closedir(d);
 }
 
-/* largest fraction (per mille) of the elapsed time any task spent waiting for a CPU */
+/* largest fraction (per mille) of the elapsed time that a task spent waiting for a CPU
+ * while running less than half of that (a spinner that shares its CPU fairly with
+ * another spinner is not starved) */
 static int rq_starved_permille(pid_t pid, const struct rq_snap *before)
 {
 	struct rq_snap now;
@@ -323,15 +326,18 @@ static int rq_starved_permille(pid_t pid, const struct rq_snap *before)
 	if (!el || !before->n)
 		return 0;
 	for (int i = 0; i < now.n; i++) {
-		uint64_t w0 = 0;
+		uint64_t w0 = 0, r0 = 0;
 		for (int k = 0; k < before->n; k++)
 			if (before->tid[k] == now.tid[i]) {
 				w0 = before->wait[k];
+				r0 = before->run[k];
 				break;
 			}
-		uint64_t dw = now.wait[i] - w0;
+		uint64_t dw = now.wait[i] - w0, dr = now.run[i] - r0;
 		if (dw > el)
 			dw = el;	/* task created in between */
+		if (dr >= dw / 2)
+			continue;
 		if (dw > maxw)
 			maxw = dw;
 	}
